@@ -22,7 +22,7 @@ ASSUMPTIONS = [
     "Column-count violations need at least two records (a single line has no other line to disagree with).",
     "Extra columns are legal in SAM (tags) and VCF (samples), so more/double-column violations are not injected there.",
 ]
-REQUIRED_CLASSES = ["non-numeric-in-all-dot-column", "malformed-float", "sign-only", "bad-marker", "bad-plus", "non-numeric", "bad-strand", "fewer-columns", "more-columns", "double-columns",
+REQUIRED_CLASSES = ["offending-line-empty", "non-numeric-in-all-dot-column", "malformed-float", "sign-only", "bad-marker", "bad-plus", "non-numeric", "bad-strand", "fewer-columns", "more-columns", "double-columns",
                     "lazy", "eager", "gzip", "offender-not-in-first-chunk", "format-exception"]
 BOUNDS = {"quick": "core: fasta2, fastq, bed3, bed6 with 2..3 records of width 1..2, all p, all k, 4 flag combinations; 60 sampled files for each of 9 formats",
           "thorough": "core: 2..4 records widths {1,2,5}; 1200 sampled files per format"}
@@ -71,9 +71,9 @@ def malformed_bytes(case):
             offset = pos
             kind = v["kind"]
             if kind == "bad-marker":
-                lines[0] = v.get("text", "X") + lines[0][1:]
+                lines[0] = "" if v.get("blank") else v.get("text", "X") + lines[0][1:]
             elif kind == "bad-plus":
-                lines[2] = v.get("text", "-") + lines[2][1:]
+                lines[2] = "" if v.get("blank") else v.get("text", "-") + lines[2][1:]
             elif kind in ("non-numeric", "bad-strand"):
                 f = lines[0].split("\t")
                 f[v["col"]] = v["text"]
@@ -144,6 +144,8 @@ def classify(case):
         cl.append("non-numeric-in-all-dot-column")
     if v.get("float_column"):
         cl.append("malformed-float")
+    if v.get("blank"):
+        cl.append("offending-line-empty")
     if v["kind"] == "non-numeric" and v["text"] in ("-", "+"):
         cl.append("sign-only")
     return nontrivial, cl
@@ -196,6 +198,8 @@ def violations(fmt, nrec, exhaustive_texts=False):
                     yield {"kind": kind, "pos": p, "col": STRAND_COLS[fmt], "text": t}
             else:
                 yield {"kind": kind, "pos": p}
+                if kind in ("bad-marker", "bad-plus"):
+                    yield {"kind": kind, "pos": p, "blank": True}
 
 
 def core_cases(fmt, widths, max_records, stride=1, offset=0):
@@ -239,8 +243,10 @@ def sampled_case(draw, fmt, max_records, W):
         v.update(col=STRAND_COLS[fmt], text=draw(st.sampled_from(BAD_STRAND)))
     elif kind == "bad-marker":
         v["text"] = draw(st.sampled_from(["X", "+", " ", "^", "<"]))
+        v["blank"] = draw(st.integers(0, 3)) == 0          # the whole header line is empty
     elif kind == "bad-plus":
         v["text"] = draw(st.sampled_from(["-", "K", "@", "A"]))
+        v["blank"] = draw(st.integers(0, 3)) == 0          # the separator line is empty
     if fmt in ("bed6", "narrowpeak") and kind == "non-numeric" and v["col"] == 4:
         if all_dot:
             # the score column is the placeholder '.' in every row (a legal file) except for the injected text, which has no digit
